@@ -32,7 +32,8 @@ TECHNIQUE = 'loop invariants + ghost coverage set on the real merge/shatter gene
 
 TRUSTED = ['T2 sorted(xs) is an ordered permutation of xs', 'generator callee view derived mechanically from the ghost-style contract of shatter']
 ASSUMPTIONS = ['ranges are non-empty (count >= 1), addresses >= 0, each range inside one 10000-register bank',
-               'reach and limit are None or >= 0', 'poller_modbus._poller is outside the contracts (bounded histories of the real thread only)']
+               'reach and limit are None or >= 0', 'of poller_modbus._poller only the call sites are under contract (AST-decided: merge -> walk -> _read(address, count) -> _store(address, value, create=False)); its loop, timing and online bookkeeping are bounded histories of the real thread only',
+               '_read: only its result statement (the decoded response `values` holds at least `count` entries); _store: only its store loop, the register table as a map over integer addresses']
 
 COIL = "(1 <= A <= 9999 or 10001 <= A <= 19999 or 100001 <= A <= 165536)"
 # over the *initial* arguments: inside the loop `limit` and `address` are reassigned locals
@@ -423,7 +424,7 @@ def poller_call_sites(repo):
 
 
 def contracts(repo):
-    return [shatter_spec(), merge_spec()] + read_result_specs() + [store_spec(), Custom('poller_call_sites', poller_call_sites,
+    return [shatter_spec(), merge_spec()] + read_result_specs() + [store_spec(), Custom('poller_call_sites', poller_call_sites, targets=[('remote/plc_modbus.py', 'poller_modbus._poller')],
             note='call-site obligations on the AST of poller_modbus._poller: merge -> walk -> _read(address, count) -> _store(address, value, create=False)')]
 
 
